@@ -543,8 +543,67 @@ def v_fd_wrappers(p):
   p.verify('shuffle_repeat_batch_federated_data', eng, body)
 
 
+def v_pbfd(p):
+  """padded_batch_federated_data(fd, hparams, **kwargs) is padded_batch_client_datasets over the datasets of fd.clients()
+  with the SAME hparams object and EVERY keyword forwarded (an override dropped in the wrapper changes the batch size or the
+  bucket rule without losing a row)."""
+  import ast
+  ex = p.extract(FD, 'padded_batch_federated_data')
+  rec = {}
+  bsz, nb = z3.Ints('batch_size_override buckets_override')
+
+  class Tok(Val):
+    def __init__(self, name):
+      self.name = name
+
+  class CliV(Val):
+    def comprehend(self, ctx, engine, e, g, kind):
+      rec['datasets_of_clients'] = kind == 'gen' and not g.ifs and isinstance(g.target, ast.Tuple) and \
+          len(g.target.elts) == 2 and ast.unparse(e.elt) == ast.unparse(g.target.elts[1])
+      return Tok('datasets')
+
+  class FdV(Val):
+    def method(self, ctx, name, args, kwargs):
+      if name == 'clients' and not args and not kwargs:
+        rec['clients'] = True
+        return CliV()
+      raise Unsupported(f'fd.{name}')
+
+  def pbcd(ctx, *a, **k):
+    rec['call'] = (a, k)
+    return ()
+  class HpTok(Tok):
+    def __init__(self, fields):
+      Tok.__init__(self, 'constructed hparams')
+      self.fields = fields
+  eng = Engine({'client_datasets': Module('client_datasets', {
+      'padded_batch_client_datasets': Handler(pbcd, 'pbcd'),
+      'PaddedBatchHParams': Handler(lambda ctx, **k: HpTok(k), 'PaddedBatchHParams')})})
+  eng.sources = [FD]
+  for tag, hp, kw in (('hparams+kwargs', Tok('hparams'), {'batch_size': bsz, 'num_batch_size_buckets': nb}),
+                      ('hparams', Tok('hparams'), {}), ('kwargs', None, {'batch_size': bsz})):
+    def body(ctx, hp=hp, kw=kw):
+      rec.clear()
+      ctx.on_yield = lambda c, v: None
+      kind, r = eng.run_function(ctx, ex.funcv(), [FdV(), hp], dict(kw))
+      ctx.oblige('pbfd.noraise', kind == 'return')
+      a, k = rec.get('call', ((), {}))
+      got_hp = a[1] if len(a) > 1 else k.get('hparams', None)
+      rest = {x: y for x, y in k.items() if x != 'hparams'}
+      if hp is None and isinstance(got_hp, HpTok) and not rest:
+        got_hp, rest = None, dict(got_hp.fields)      # hparams built from exactly the keywords: the same thing
+      ok = rec.get('clients') and rec.get('datasets_of_clients') is True and len(a) >= 1 and isinstance(a[0], Tok) and \
+          a[0].name == 'datasets' and got_hp is hp and set(rest) == set(kw)
+      ctx.oblige('pbfd.args', z3.And(z3.BoolVal(bool(ok)), *[to_z3(rest[x]) == to_z3(kw[x]) for x in kw]) if ok else False,
+                 detail='one call padded_batch_client_datasets(datasets of fd.clients(), hparams, **kwargs): the hparams object '
+                        f'as given and every keyword override forwarded unchanged (forwarded: {sorted(rest)}, given: {sorted(kw)})')
+    p.verify(f'padded_batch_federated_data[{tag}]', eng, body)
+
+
 def build(p):
   D = 'native/C15.py'
+  p.native('padded_batch_federated_data', D, 'pbcd')
+  v_pbfd(p)
   p.native('RepeatableIterator', D, 'rep')
   v_repeatable(p)
   p.native('padded_batch_client_datasets', D, 'pbcd')
